@@ -135,6 +135,8 @@ func c19EnumTotality(c *Ctx, rule string) {
 func runC19(c *Ctx) {
 	c19EnumTotality(c, "C19.1")
 	ruleRowFromRecordOnly(c, "C19.10")
+	ruleBlockingErrorSend(c, "C19.12")
+	ruleMappingNotReordered(c, "C19.13")
 	c.Rule("C19.11", "the stored row reads back as the record's values: the row codec is symmetric per column type (every value the writer emits is consumed by the reader, empty strings included) and its length prefixes are byte lengths (C08.4)")
 	checkCodecPair(c, "C19.11", "storage.(*Tuple).Encode", "storage.(*Tuple).Decode")
 	c.Rule("C19.2", "in the import loop a bad record never stops or alters the others: every error edge before the INSERT (CSV parse error, short record, conversion error) reports and continues; only a non-parse read error or EOF leaves the loop; the short-record guard rejects exactly the records that lack the largest mapped index")
@@ -228,7 +230,22 @@ func runC19(c *Ctx) {
 				br, isBr := last.(*ast.BranchStmt)
 				switch {
 				case cond == "err==io.EOF":
-					c.Check(isBr && br.Tok == token.BREAK, "C19.2", key, ifs.Pos(), "EOF ends the import", "EOF does not end the import loop")
+					ends := isBr && br.Tok == token.BREAK
+					if r, isRet := last.(*ast.ReturnStmt); isRet && len(r.Results) == 0 {
+						// `return` where nothing follows the loop in its function (literal) leaves the loop just as well
+						ast.Inspect(f.Decl.Body, func(y ast.Node) bool {
+							var body *ast.BlockStmt
+							switch z := y.(type) {
+							case *ast.FuncLit:
+								body = z.Body
+							}
+							if body != nil && len(body.List) > 0 && body.List[len(body.List)-1] == loop {
+								ends = true
+							}
+							return true
+						})
+					}
+					c.Check(ends, "C19.2", key, ifs.Pos(), "EOF ends the import", "EOF does not end the import loop")
 				case cond == "err!=nil" && len(f.Calls(ifs.Body, false, "csv.Reader.Read")) == 0 && strings.Contains(exprKeyOfBlock(ifs.Body), "csv.ParseError"):
 					// read error: parse errors continue, others break
 					okPE := false
@@ -242,6 +259,30 @@ func runC19(c *Ctx) {
 								if rhs, idx, ok := f.definedBy(ifs.Body, f.ObjOf(id)); ok && idx == 1 && strings.Contains(exprKey(rhs), "csv.ParseError") {
 									okPE = true
 								}
+							}
+						}
+					}
+					// the inverted spelling: `if _, isPE := err.(*csv.ParseError); !isPE { break/return }` … `continue`
+					for i2, s2 := range ifs.Body.List {
+						in, ok := s2.(*ast.IfStmt)
+						if !ok || in.Else != nil || !strings.Contains(exprKeyNode(in.Init)+exprKey(in.Cond), "csv.ParseError") {
+							continue
+						}
+						u, isNot := ast.Unparen(in.Cond).(*ast.UnaryExpr)
+						if !isNot || u.Op != token.NOT || len(in.Body.List) == 0 {
+							continue
+						}
+						leaves := false
+						switch z := in.Body.List[len(in.Body.List)-1].(type) {
+						case *ast.BranchStmt:
+							leaves = z.Tok == token.BREAK
+						case *ast.ReturnStmt:
+							leaves = len(z.Results) == 0
+						}
+						rest := ifs.Body.List[i2+1:]
+						if leaves && len(rest) > 0 {
+							if b, ok := rest[len(rest)-1].(*ast.BranchStmt); ok && b.Tok == token.CONTINUE {
+								okPE = true
 							}
 						}
 					}
@@ -296,16 +337,39 @@ func runC19(c *Ctx) {
 					if rs.Key != nil {
 						elem[exprKey(rs.X)+"["+exprKey(rs.Key)+"]"] = true
 					}
-					for _, s2 := range rs.Body.List {
-						if ifs, ok := s2.(*ast.IfStmt); ok {
-							if be, ok := ast.Unparen(ifs.Cond).(*ast.BinaryExpr); ok && be.Op == token.GTR && exprKey(be.Y) == maxName && elem[exprKey(be.X)] {
-								for _, s3 := range ifs.Body.List {
-									if as, ok := s3.(*ast.AssignStmt); ok && exprKey(as.Lhs[0]) == maxName && elem[exprKey(as.Rhs[0])] {
-										okMax = true
-									}
+					// every store into the maximum inside the loop is `max = elem` where elem >= max is known, or leaves it
+					// as it is; or it is max(max, elem)
+					g := f.Graph()
+					stores, good := 0, 0
+					ast.Inspect(rs.Body, func(y ast.Node) bool {
+						as, ok := y.(*ast.AssignStmt)
+						if !ok || len(as.Lhs) != 1 || len(as.Rhs) != 1 || exprKey(as.Lhs[0]) != maxName {
+							return true
+						}
+						stores++
+						rhs := exprKey(as.Rhs[0])
+						if rhs == maxName {
+							stores-- // max = max
+							return true
+						}
+						if call, ok := ast.Unparen(as.Rhs[0]).(*ast.CallExpr); ok && len(call.Args) == 2 {
+							if id, ok := call.Fun.(*ast.Ident); ok && id.Name == "max" {
+								a, b := exprKey(call.Args[0]), exprKey(call.Args[1])
+								if (a == maxName && elem[b]) || (b == maxName && elem[a]) {
+									good++
 								}
 							}
+							return true
 						}
+						if loc, ok := g.Locate(as); ok && elem[rhs] {
+							if g.HoldsAt(loc, Rel{rhs, token.GEQ, maxName}) || g.HoldsAt(loc, Rel{rhs, token.GTR, maxName}) {
+								good++
+							}
+						}
+						return true
+					})
+					if stores > 0 && stores == good {
+						okMax = true
 					}
 				}
 				return true
@@ -424,17 +488,22 @@ func runC19(c *Ctx) {
 		}
 		c.Check(okInt, "C19.5", cf.Name+"|base-10", cf.Decl.Pos(), "integers are converted base 10", "an integer field is converted with a base other than 10")
 		okIdx := false
+		badIdx := false
 		inspectBody(cf.Decl.Body, func(x ast.Node) bool {
-			if sw, ok := x.(*ast.SwitchStmt); ok && sw.Tag != nil {
-				if ix, ok := ast.Unparen(sw.Tag).(*ast.IndexExpr); ok && strings.HasSuffix(exprKey(ix.X), ".colTypes") {
-					// the index is the range key of the loop over srcCols
-					if rs, ok := enclosingLoop(cf.Decl.Body, sw).(*ast.RangeStmt); ok && strings.HasSuffix(exprKey(rs.X), ".srcCols") && exprKey(rs.Key) == exprKey(ix.Index) {
-						okIdx = true
-					}
+			// every read of colTypes inside the loop over srcCols uses that loop's key: as a switch tag, bound to a
+			// local first, or as the key of a table of converters
+			if ix, ok := x.(*ast.IndexExpr); ok && strings.HasSuffix(exprKey(ix.X), ".colTypes") {
+				if rs, ok := enclosingLoop(cf.Decl.Body, ix).(*ast.RangeStmt); ok && strings.HasSuffix(exprKey(rs.X), ".srcCols") && rs.Key != nil && exprKey(rs.Key) == exprKey(ix.Index) {
+					okIdx = true
+				} else {
+					badIdx = true
 				}
 			}
 			return true
 		})
+		if badIdx {
+			okIdx = false
+		}
 		c.Check(okIdx, "C19.5", cf.Name+"|type-of-same-position", cf.Decl.Pos(), "field i is converted with the type of destination column i", "the conversion of mapped field i does not use colTypes[i]")
 	}
 	if mf := c.NeedFunc("C19.5", "csvimport.makeConfig"); mf != nil {
